@@ -154,24 +154,36 @@ def execute(mat, ctx):
             # same entity objects, edited annotation, assembled again: the product must inherit the table the inputs carry *now*
             import warnings
             from Bio.SeqFeature import SeqFeature, FeatureLocation
-            for e in [res["vector"]] + res["modules"]:
-                rec = e.record
+            for e, rec in zip([res["vector"]] + res["modules"], [res["vrec"]] + res["mrecs"]):
+                # (rec is the record object the caller handed to the entity)
                 spec = mat["vector"] if e is res["vector"] else mat["modules"][res["modules"].index(e)]
                 geomk = 1
                 f0 = (spec["built"]["frag_start_unrotated"] - spec["built"]["rot_left"]) % len(rec)
                 a = (f0 + 1) % len(rec)
-                rec.features.append(SeqFeature(FeatureLocation(a, a + 1, 1), type="misc_feature", qualifiers={"uid": [rec.id + ".late"], "note": ["added later"]}))
+                late = SeqFeature(FeatureLocation(a, a + 1, 1), type="misc_feature", qualifiers={"uid": [rec.id + ".late"], "note": ["added later"]})
+                if len(rec) % 2:
+                    rec.features.append(late)
+                else:
+                    rec.features = rec.features + [late]        # the table is re-bound, not edited in place
                 for f in rec.features[:2]:
                     f.qualifiers["note"] = ["corrected"]
                 if len(rec.features) > 3:
                     del rec.features[2]
+            prod2 = None
             with warnings.catch_warnings():
                 warnings.simplefilter("ignore")
                 try:
-                    res["vector"].assemble(*res["modules"], id=mat["id"], name=mat["name"])
+                    prod2 = res["vector"].assemble(*res["modules"], id=mat["id"], name=mat["name"])
                 except Exception:
                     pass
             ctx.count("c08_reassembled_after_edit")
+            if prod2 is not None:
+                # the features added to the records the caller holds (each one nucleotide long, just inside the retained
+                # fragment) must all have an image in the new product
+                have = {(f.qualifiers.get("uid") or [None])[0] for f in prod2.features}
+                missing = [r.id + ".late" for r in [res["vrec"]] + res["mrecs"] if r.id + ".late" not in have]
+                if missing:
+                    ctx.violation("feature-added-to-the-callers-record-not-inherited", "after the caller's records were given a further feature, the same entities' product lacks %s" % missing[:3])
         if res["outcome"] == "product" and mat["id"].endswith(("2", "5", "8")):
             # same entity objects, but each now wraps a re-loaded, re-annotated record of the same plasmid (another id, features
             # re-labelled, one dropped): the product must be built from the records the entities wrap *now*
